@@ -117,6 +117,8 @@ def sorted_model(ex, args, kwargs, st, n):
             return call_external(ex, tgt, a, {}, st, n)
         if ept.kind == 'cell' and key is None and rev is None:
             return call_external(ex, 'builtins.sorted.cells', [v], {}, st, n)
+        if ept.kind == 'int' and key is None and rev is None:
+            return call_external(ex, 'builtins.sorted.ints', [v], {}, st, n)
         if ept.kind == 'key' and key is None and rev is None:
             return call_external(ex, 'builtins.sorted.keys', [v], {}, st, n)
     raise OutOfSubset('sorted() on %r at line %d' % (v.pt, n.lineno))
